@@ -27,7 +27,7 @@ RULE = ('one trash-empty (all modes) or trash-rm per case over trash content wit
         'to something outside; distinct = (command, link kinds purged, depth)')
 ASSUMPTIONS = ['the checks run as root: the permission failures an ordinary user meets (unlink inside a read-only directory: EACCES) are emulated by injected persistent conditions',
                "a trash directory whose files/ or info/ is itself a symlink (foreign damage) is not generated: what 'under files/' means there is debatable"]
-PROBES = ['dot-Trash-is-a-symlink-to-a-sticky-dir', 'trash-dir-is-itself-a-symlink', 'tree-deeper-than-the-recursion-limit', 'trash-dir-spelled-through-symlink-dotdot', 'permission-conditions', 'link-payload-purged', 'link-inside-dir-purged', 'dangling-purged', 'through-symlinked-home', 'rm-command', 'empty-command',
+PROBES = ['info-named-by-dots-only', 'dot-Trash-is-a-symlink-to-a-sticky-dir', 'trash-dir-is-itself-a-symlink', 'tree-deeper-than-the-recursion-limit', 'trash-dir-spelled-through-symlink-dotdot', 'permission-conditions', 'link-payload-purged', 'link-inside-dir-purged', 'dangling-purged', 'through-symlinked-home', 'rm-command', 'empty-command',
           'mutating-ops-monitored', 'rmtree-used']
 TECHNIQUE = 'deterministic simulation with an in-kernel containment monitor on every mutating op plus full-snapshot frame check'
 LEVEL_TEXT = ('seeded exploration of trash contents; containment is evaluated at the op that would break it (resolved target of each '
@@ -74,6 +74,14 @@ def gen(rng):
     for i in range(n):
         tdir, top, _u = rng.choice(locs)
         nm = rng.choice(['p%d' % i, 'x%d.trashinfo' % i, 'new\nline%d' % i, 'a b%d' % i, '-rf%d' % i, 'é%d' % i, '.dot%d' % i, '%%41%d' % i])
+        if rng.random() < 0.12:
+            # a name that is the percent-ENCODED spelling of a path that leads out of files/ (relative, through '..', or
+            # absolute) to something that exists: names are literal, whoever decodes one walks out of the trash
+            target = rng.choice([home + '/precious', home + '/precious/keep.txt', home + '/precious/sub'])
+            spell = rng.choice([posixpath.relpath(target, tdir + '/files'), target])
+            enc = ''.join(c if (c.isalnum() or c in '._-') and rng.random() < 0.9 else '%%%02X' % ord(c) for c in spell)
+            enc = enc.replace('%2F', rng.choice(['%2F', '%2f']))
+            nm = enc if len(enc) < 200 and enc not in names else nm
         names.append(nm)
         loc = (home + '/w/' + nm) if top is None else (L['work'][top] + '/' + nm)
         pv = TG.pct(loc if top is None else loc[len(top) + 1:])
@@ -114,6 +122,18 @@ def gen(rng):
         tdir = rng.choice(locs)[0]
         steps.append(['d', tdir + '/files', 0o700])
         steps.append(['l', tdir + '/files/orphanlink', home + '/precious'])
+    if rng.random() < 0.08:
+        # an info file whose name is nothing but the suffix, or dots and the suffix: the payload name it stands for would be
+        # '', '.' or '..' - that is files/ itself, or the trash directory (with its directorysizes cache)
+        tdir = rng.choice(locs)[0]
+        for sub in ('', '/files', '/info'):
+            steps.append(['d', tdir + sub, 0o700])
+        steps.append(['f', tdir + '/directorysizes', '4096 1600000000 somedir\n', 0o600])
+        steps.append(['f', tdir + '/info/' + rng.choice(['', '.', '..']) + '.trashinfo',
+                      G.fmt_info(TG.pct(home + '/w/p0'), '2001-02-03T00:00:00'), 0o600])
+        dotnames = True
+    else:
+        dotnames = False
     faults = []
     if rng.random() < 0.3:
         # a trashed tree with a read-only sub-directory that holds a link to the outside: for an
@@ -172,6 +192,7 @@ def gen(rng):
         'procs': [{'argv': argv, 'env': env, 'cwd': rng.choice(['/', home, home + '/precious']), 'uid': L['uid']}],
         'dirsalt': rng.randrange(1 << 30),
         'faults': faults,
+        'note': {'dotnames': dotnames},
     }
 
 
@@ -237,6 +258,8 @@ def check(sim, case, st):
     st.ops += r.nops
     st.probes['mutating-ops-monitored'] += nmon[0]
     st.probes['rm-command' if cmd == 'trash-rm' else 'empty-command'] += 1
+    if case.get('note', {}).get('dotnames'):
+        st.probes['info-named-by-dots-only'] += 1
     snap1 = sim.snap()
     res = []
     if offending:
